@@ -361,3 +361,55 @@ fn c18_mutators_one_step() {
     kani::cover!(which == 4 && s2 == MigrationStatus::Cancelled);
     core::mem::forget(st);
 }
+
+// ---------------------------------------------------------------------------------------------
+// The dead set is a TRANSITIVE closure: a transaction two layers behind a source that can never
+// mine is itself dead. Observed through the public `transaction_statuses` on a three-deep chain
+// prep(0) <- prep(1) <- transfer(2) whose shape is concrete and whose source row is symbolic.
+// ---------------------------------------------------------------------------------------------
+use zcash_pool_migration::state::Blocker;
+
+//@ {"p":"C18","tier":"experimental","why_experimental":"symex did not finish in 1800 s (BTreeSet collect + sort inside dead_set)","clause":"transitive dead set on a 3-deep dependency chain: the transfer at the end of the chain is reported Unsatisfiable iff the source preparation can never mine (unmined and either marked or expired at the scanned target) or the middle one can not; a dead chain is never reported ready to broadcast","bounds":"chain prep(0) <- prep(1) <- transfer(2) (concrete shape); source row: lifecycle state, expiry, mark symbolic; middle and last rows Signed / Proved symbolic; scanned and estimated targets symbolic","covers":3,"t":1800,"unwindset":{"collections::btree.*":3,"core::slice::sort.*":4,"fn:core::slice::sort":2,"memcmp.0":34}}
+#[kani::proof]
+#[kani::unwind(5)]
+fn c18_dead_set_is_transitive() {
+    let r0 = any_row();
+    let mut r1 = any_row();
+    let mut r2 = any_row();
+    // middle and last rows: not yet broadcast, unmarked, never expiring, unreported
+    kani::assume(r1.st == 1 || r1.st == 2);
+    kani::assume(r2.st == 1 || r2.st == 2);
+    r1.unsat = None;
+    r1.fail = None;
+    r1.expiry = 0;
+    r2.unsat = None;
+    r2.fail = None;
+    r2.expiry = 0;
+    let t0 = mk_tx(0, MigrationTxKind::Preparation { layer: 0, index: 0 }, Vec::new(), &r0);
+    let t1 = mk_tx(1, MigrationTxKind::Preparation { layer: 1, index: 0 }, vec![id(0)], &r1);
+    let t2 = mk_tx(2, MigrationTxKind::Transfer { crossing: 0 }, vec![id(1)], &r2);
+    let den = DenominationPlan::from_stored_parts(vec![z(20_000_000)], z(15_000), None, Zatoshis::ZERO, z(20_015_000), z(20_000_000)).unwrap();
+    let st = MigrationState::from_parts(
+        MigrationStatus::InProgress,
+        den,
+        PreparationPlan::from_parts(Vec::new(), Vec::new()),
+        vec![t0, t1, t2],
+        AnchorBucketInterval::ZIP_318,
+        ReplanThreshold::DEFAULT,
+    );
+    let (scanned, est): (u32, u32) = (kani::any(), kani::any());
+    let statuses = st.transaction_statuses(DuenessTargets::new(bh(scanned), bh(est)));
+    assert!(statuses.len() == 3);
+    let source_dead = r0.st != 4 && (r0.unsat.is_some() || expired_at(&r0, scanned));
+    let last = &statuses[2];
+    assert!((last.blocked_on() == Some(Blocker::Unsatisfiable)) == source_dead);
+    assert!((statuses[1].blocked_on() == Some(Blocker::Unsatisfiable)) == source_dead);
+    if source_dead {
+        assert!(!last.ready() && last.action().is_none());
+    }
+    kani::cover!(source_dead && r0.unsat.is_none());
+    kani::cover!(!source_dead && r0.st == 3);
+    kani::cover!(source_dead && r0.st == 3 && r2.st == 2);
+    core::mem::forget(statuses);
+    core::mem::forget(st);
+}
